@@ -97,6 +97,22 @@ class Arr2C:
         return self.f(i, j)
 
 
+class RowDictC:
+    """insertion-ordered dict  key (float) -> 1-D array  of symbolic size: keys[i], rows(i, k), number of entries, row width"""
+    __slots__ = ('keys', 'rows', 'n', 'width')
+
+    def __init__(self, keys, rows, n, width):
+        self.keys, self.rows, self.n, self.width = keys, rows, n, width      # rows: python callable (i, k) -> z3 Real
+
+
+class LocalFunc:
+    """a function defined inside the function under contract: inlined at its call sites"""
+    __slots__ = ('node',)
+
+    def __init__(self, node):
+        self.node = node
+
+
 class ListC:
     __slots__ = ('items',)
 
@@ -232,6 +248,10 @@ class TArr(Sort):
         return st.new_ref(c, name)
 
 
+class TArr2_(object):
+    pass
+
+
 class TArr2(Sort):
     def __init__(self, n0=None, n1=None):
         self.n0, self.n1 = n0, n1
@@ -284,6 +304,20 @@ class TMap(Sort):
         st.assume(n >= 0)
         c = MapC(fresh(name + '.dom', z3.ArraySort(self.ksort, Bo)), fresh(name + '.val', z3.ArraySort(self.ksort, self.vsort)), n)
         return st.new_ref(c, name)
+
+
+class TRowDict(Sort):
+    def __init__(self, n=None, width=None):
+        self.n, self.width = n, width
+
+    def make(self, st, name):
+        n = self.n if self.n is not None else fresh(name + '.n', I)
+        w = self.width if self.width is not None else fresh(name + '.width', I)
+        if isinstance(n, str):
+            n = st.load(n)
+        st.assume(z3.And(n >= 0, w >= 0))
+        fn = z3.Function(name + '!' + str(next(_counter)), I, I, R)
+        return st.new_ref(RowDictC(fresh(name + '.keys', z3.ArraySort(I, R)), lambda i, k: fn(i, k), n, w), name)
 
 
 class TObj(Sort):
